@@ -532,6 +532,17 @@ def check_caret(chk, pm):
                 raise Unrecognised('C06.A', 'line_error layout not understood', mod.rel)
         raise Unrecognised('C06.A', 'line_error has no slice of the line', mod.rel)
 
+    # the error carries the line's text: the line parameter is never replaced by an altered text (callers compute columns from len(error.line))
+    for s in ast.walk(func):
+        if isinstance(s, (ast.Assign, ast.AugAssign)) and any(isinstance(t, ast.Name) and t.id == line_p for t in (s.targets if isinstance(s, ast.Assign) else [s.target])):
+            v = s.value
+            if isinstance(v, ast.Call) and isinstance(v.func, ast.Attribute) and v.func.attr in ('strip', 'rstrip', 'lstrip') and not v.args \
+                    and isinstance(v.func.value, ast.Name) and v.func.value.id == line_p:
+                chk.bad('C06.A', mod, 'BareScriptParserError.__init__', norm(s)[:80],
+                        f'the constructor replaces the line it is given by {norm(v)}: the error no longer carries the line\'s text, and the expression parser\'s column arithmetic '
+                        f'(len(text) - len(error.line) + 1) and the caret shift by the characters removed', node=s)
+                return
+            raise Unrecognised('C06.A', f'the constructor reassigns its line parameter: {norm(s)[:70]}', mod.rel)
     # straight-line prefix
     trim_if = None
     err_var = col_var = None
